@@ -2,6 +2,7 @@ SPECIFICATION Spec
 CONSTANTS
  MaxN = 3
  PairN = {2}
+ InterN = {4}
  TripleN = {}
 INVARIANT UnitaryColumns
 CHECK_DEADLOCK FALSE
